@@ -93,14 +93,50 @@ func instrumentSched(filename string, src []byte) ([]byte, int, error) {
 		})
 	}
 	head := func(s ast.Stmt) ast.Node {
-		// the part of a compound statement evaluated before its body
+		// the part of a compound statement evaluated before its body: init
+		// statement, condition, switch tag and case expressions (one point
+		// before the statement stands for all of them — an approximation that
+		// can only make a schedule unreplayable, i.e. UNCONFIRMED, never wrong)
+		var parts []ast.Stmt
+		add := func(e ast.Expr) {
+			if e != nil {
+				parts = append(parts, &ast.ExprStmt{X: e})
+			}
+		}
 		switch st := s.(type) {
 		case *ast.IfStmt:
-			return &ast.BlockStmt{List: []ast.Stmt{&ast.ExprStmt{X: st.Cond}}}
-		case *ast.ForStmt, *ast.RangeStmt, *ast.SwitchStmt, *ast.TypeSwitchStmt, *ast.SelectStmt, *ast.BlockStmt, *ast.LabeledStmt:
+			if st.Init != nil {
+				parts = append(parts, st.Init)
+			}
+			add(st.Cond)
+		case *ast.SwitchStmt:
+			if st.Init != nil {
+				parts = append(parts, st.Init)
+			}
+			add(st.Tag)
+			for _, c := range st.Body.List {
+				if cc, ok := c.(*ast.CaseClause); ok {
+					for _, e := range cc.List {
+						add(e)
+					}
+				}
+			}
+		case *ast.ForStmt:
+			if st.Init != nil {
+				parts = append(parts, st.Init)
+			}
+			add(st.Cond)
+		case *ast.RangeStmt:
+			add(st.X)
+		case *ast.TypeSwitchStmt, *ast.SelectStmt, *ast.BlockStmt, *ast.LabeledStmt:
+			return nil
+		default:
+			return s
+		}
+		if len(parts) == 0 {
 			return nil
 		}
-		return s
+		return &ast.BlockStmt{List: parts}
 	}
 	rewriteList = func(list []ast.Stmt) []ast.Stmt {
 		var out []ast.Stmt
